@@ -107,7 +107,7 @@ CHECKS = {
               "E1: the same inputs as raw bytes (random chunking) or framed fragments (incl. maximal-size control requests, foreign/broadcast addresses) injected into live outstation and master sessions prepared in 6 states x both link error modes x buffer sizes x 108 decode levels; "
               "after each input: quiescence (spin), panic hook, task alive; at the end link-status and READ probes in virtual time. distinct = (role, state, input class, error mode) and (function, length bucket) tuples"),
         runs=[dict(check="c01", timeout_s=1200)],
-        required=["direct_fragments_parsed", "direct_objects_accepted", "direct_link_streams", "probe_link_status_ok", "probe_read_ok", "close_mode_session_ended_on_framing_error"],
+        required=["direct_fragments_parsed", "direct_objects_accepted", "direct_link_streams", "probe_link_status_ok", "probe_read_ok", "close_mode_session_ended_on_framing_error", "master_probe_read_ok", "master_probe_ok_chatter0", "master_probe_ok_chatter1", "master_probe_ok_chatter2", "master_probe_ok_chatter3", "master_close_mode_session_ended_on_framing_error"],
         thorough_scale=25.0,
         abnormal_exit_is_violation=True,
         assumptions=HARNESS_TRUST,
